@@ -72,6 +72,10 @@ def atoms(ctx):
     ctx.ob("R14.1", "incremental|needle|request-line", needles(conn.PARSE_RL) == {b"\r\n"}, "request-line end is found with find(_, CRLF): %s" % needles(conn.PARSE_RL), frl.loc(0))
     ctx.ob("R14.1", "incremental|needle|headers", needles(conn.PARSE_H) == {b"\r\n"}, "header-line end is found with find(_, CRLF): %s" % needles(conn.PARSE_H), fh.loc(0))
     ctx.ob("R14.1", "one-shot|needles", needles(ONE) == {b"\r\n", b"\r\n\r\n"}, "one-shot parser looks for CRLF and CRLFCRLF: %s" % needles(ONE), fo.loc(0))
+    find_shape(ctx)
+
+
+def find_shape(ctx):
     # find is first-occurrence search by windows/position
     ff, lf_ = leaves(ctx, "request::find")
     for lf in lf_:
